@@ -72,6 +72,9 @@ fn session_socket(mode: Mode, e: &Enr, rng: &mut Rng) -> SocketAddr {
     }
 }
 
+/// a jump over more than half of the 64-bit range
+const FAR: i64 = i64::MAX - 1000;
+
 struct Node {
     sk: SigningKey,
     id: Id,
@@ -82,7 +85,9 @@ struct Node {
 }
 
 fn shape(rng: &mut Rng, n: &mut Node, bump: i64) -> Enr {
-    n.seq = (n.seq as i64 + bump).max(1) as u64;
+    // sequence numbers are 64-bit values a peer chooses freely: the far ends of the range and
+    // jumps across half of it are exercised as well as small steps
+    n.seq = (n.seq as i128 + bump as i128).clamp(1, u64::MAX as i128) as u64;
     if let Some(e) = n.records.get(&n.seq) {
         return e.clone();
     }
@@ -140,7 +145,13 @@ pub fn scenario(seed: u64, rep: &mut Report) {
         let mut nodes: Vec<Node> = (0..(4 + rng.usize(10))).map(|i| {
             let sk = signing_key(&mut rng);
             let id = build_enr2(&sk, 1, EnrAddr::None, EnrAddr::None, None).node_id().raw();
-            Node { sk, id, seq: 1 + rng.below(6), host: 1 + i as u8, records: HashMap::new() }
+            let seq = match rng.below(8) {
+                0 => u64::MAX - 8 - rng.below(40),
+                1 => (1u64 << 63) - 3 + rng.below(6),
+                2 => (1u64 << 32) - 3 + rng.below(6),
+                _ => 1 + rng.below(6),
+            };
+            Node { sk, id, seq, host: 1 + i as u8, records: HashMap::new() }
         }).collect();
         // outstanding FINDNODE requests of lookups: request id -> (peer id, distances)
         let mut open_findnodes: Vec<(discv5::RequestId, NodeAddress, Vec<u64>)> = Vec::new();
@@ -163,7 +174,7 @@ pub fn scenario(seed: u64, rep: &mut Report) {
             let what = rng.below(100);
             if what < 30 {
                 // an established session (handler-faithful: the record verifies against the socket)
-                let bump = *rng.pick(&[0i64, 0, 1, 2]);
+                let bump = *rng.pick(&[0i64, 0, 0, 1, 1, 2, 2, FAR]);
                 // For an incoming session a real handler reports the newer of the attached record
                 // and the one the service returned to its who-are-you query: never older than the
                 // stored one. An outgoing session is reported with the record the request was
@@ -190,8 +201,12 @@ pub fn scenario(seed: u64, rep: &mut Report) {
                 may_replace_session.push(nodes[k].id);
                 rig.emit(HandlerOut::Established(enr, sock, dir)).await;
             } else if what < 42 {
-                let bump = *rng.pick(&[-1i64, 0, 1]);
+                let bump = *rng.pick(&[-1i64, -1, 0, 0, 1, 1, -FAR]);
+                let keep = nodes[k].seq;
                 let enr = shape(&mut rng, &mut nodes[k], bump);
+                if bump < 0 {
+                    nodes[k].seq = keep;
+                }
                 let r = rig.discv5.add_enr(enr.clone());
                 log.push(json!({"step": step, "ev": "add_enr", "node": hx(&nodes[k].id[..4]), "seq": enr.seq(), "result": format!("{r:?}")}));
                 may_add.push(nodes[k].id);
@@ -212,7 +227,7 @@ pub fn scenario(seed: u64, rep: &mut Report) {
                 let mut recs = Vec::new();
                 for _ in 0..rng.usize(5) {
                     let j = rng.usize(nodes.len());
-                    let bump = *rng.pick(&[-2i64, -1, 0, 1, 3]);
+                    let bump = *rng.pick(&[-2i64, -2, -1, -1, 0, 0, 1, 1, 3, 3, -FAR, -FAR - 9, FAR]);
                     // do not disturb the canonical seq for lower/equal cases
                     let keep = nodes[j].seq;
                     let e = shape(&mut rng, &mut nodes[j], bump);
@@ -230,7 +245,9 @@ pub fn scenario(seed: u64, rep: &mut Report) {
             } else if what < 88 && !open_pings.is_empty() {
                 let (rid, na) = open_pings.remove(rng.usize(open_pings.len()));
                 log.push(json!({"step": step, "ev": "PONG", "from": hx(&na.node_id.raw()[..4])}));
-                rig.emit(HandlerOut::Response(na.clone(), Box::new(Response { id: rid, body: ResponseBody::Pong { enr_seq: rng.below(8), ip: na.socket_addr.ip(), port: NonZeroU16::new(9000).unwrap() } }))).await;
+                let small = rng.below(8);
+                let pong_seq = *rng.pick(&[small, small, small, 1u64 << 63, u64::MAX]);
+                rig.emit(HandlerOut::Response(na.clone(), Box::new(Response { id: rid, body: ResponseBody::Pong { enr_seq: pong_seq, ip: na.socket_addr.ip(), port: NonZeroU16::new(9000).unwrap() } }))).await;
             } else if what < 94 {
                 // fail some outstanding request
                 let rid = if !open_pings.is_empty() && rng.bool() {
